@@ -346,6 +346,7 @@ func run(c *rig.Ctx) {
 	polling(c)
 	armed(c)
 	stores(c)
+	longAfter(c)
 
 	// (3) the OAM DMA ROMs (CPU-driven transfers from HRAM, as programs do it)
 	romrun.FollowROMs(c, "roms", romrun.Select("oam_dma"), romrun.FollowOpts{Verdict: true})
